@@ -597,6 +597,11 @@ class FileSystem(SimComponent):
         self.deleted_folders.pop(folder.uuid, None)
         folder.restore()
         self.folders[folder.uuid] = folder
+        # requests addressed to this name must reach the folder that is now live under it (an earlier folder of the same
+        # name may have been created and deleted in between, leaving its own route registered)
+        self._folder_request_manager.add_request(
+            name=folder.name, request_type=RequestType(func=folder._request_manager)
+        )
         return True
 
     def restore_file(self, folder_name: str, file_name: str) -> bool:
